@@ -127,9 +127,11 @@ def run(ctx):
     metas = []          # (fn, args, result or None, err)
     cases = []
 
-    def add(fname, args, kind, nontrivial):
+    def add(fname, args, kind, nontrivial, call_args=None):
+        """args: the (full) argument tuple of the contract / model; call_args: what is actually passed
+        (shorter when a default is exercised)"""
         fn = getattr(nav, fname)
-        r, err = call(fn, *args)
+        r, err = call(fn, *(args if call_args is None else call_args))
         metas.append((fname, args, r, err))
         ctx.case({"f": fname, "args": [str(x) for x in args], "r": str(r) if err is None else err},
                  nontrivial=nontrivial, kind=kind + ":" + fname)
@@ -155,6 +157,18 @@ def run(ctx):
         if kind != "int" or (a % 3 == 0):
             b = a / 2 if kind != "int" else a // 3
             add("delta", (a, b, w), kind, (w != 0) and abs(F(a) - F(b)) > abs(F(w)))
+    # delta with a zero wrap in every spelling (0, 0.0, -0.0, Fraction(0)) and heading differences beyond the
+    # half and the full circle: the written contract is `wrap 0 returns the difference unchanged`; and the default
+    # wrap (call with two arguments) must be 180
+    for d, a in ((-800, -450), (400, 0), (0, 200), (181, 0), (0, 181), (180, 0), (-180.5, 0.25), (725.5, 0.25),
+                 (1000, -1000), (359, -2), (10, 350), (Fraction(1445, 4), 0), (90, 45)):
+        for w in (0, 0.0, -0.0, Fraction(0)):
+            add("delta", (d, a, w), "zero-wrap", abs(F(d) - F(a)) > 180)
+        if not isinstance(d, Fraction):
+            add("delta", (d, a, 180.0), "default-wrap", abs(F(d) - F(a)) > 180, call_args=(d, a))
+    for _ in range(ctx.n(60, 600)):
+        d, a = ctx.rng.randint(-1500, 1500) / 4.0, ctx.rng.randint(-1500, 1500) / 4.0
+        add("delta", (d, a, ctx.rng.choice([0, 0.0, -0.0])), "zero-wrap", abs(d - a) > 180)
     # wrap1 on genuine (non-dyadic) rationals: pure Fraction arithmetic in the implementation
     for _ in range(ctx.n(300, 3000)):
         a = Fraction(ctx.rng.randint(-5000, 5000), ctx.rng.randint(1, 97))
@@ -229,6 +243,9 @@ def run(ctx):
                     else:
                         r2, e2 = call(nav.wrap2, args[0] - args[1], args[2])
                         why = e2 or stmt_wrap2(F(args[0]) - F(args[1]), args[2], r)
+                        if why and F(args[2]) == 0:
+                            why = ("delta(desired=%r, actual=%r, wrap=%r) = %r: a wrap of zero must return the "
+                                   "difference %s unchanged" % (args[0], args[1], args[2], r, F(args[0]) - F(args[1])))
                         if why is None and F(r2) != F(r):
                             why = "delta is not the two-sided wrap of the difference"
                 except (TypeError, ValueError, ZeroDivisionError, OverflowError) as ex:
